@@ -116,6 +116,12 @@ class Multiplication:
         continue
       cloned.add(id(l))
       lc = l.clone()
+      # identifiers are unique: the copy of a named edge is an unnamed edge
+      name_field = lc.__class__.NAME_FIELD
+      if name_field in lc.positional_fieldnames:
+        lc.set(name_field, gfapy.Placeholder())
+      else:
+        lc.delete(name_field)
       if lc.from_segment == segment.name:
         lc.from_segment = clone_name
       if lc.to_segment == segment.name:
